@@ -154,8 +154,16 @@ def oracle_stale(prog, idx):
     the gradients of its views must read None.  View or not is decided from memory sharing of the result, not from
     MyGrad's bookkeeping."""
     ex = progs.RealExec()
+    voided = {}  # tensors whose gradient was discarded since the last backward: name -> the statement that did it
     for st in prog:
         k = st[0]
+        if k in ("back", "del"):
+            voided = {} if k == "back" else {n: w for n, w in voided.items() if n != st[1]}
+        # "... read None until recomputed": a discarded gradient must not come back before the next backward
+        for n, why in voided.items():
+            if n in ex.v and ex.v[n].grad is not None:
+                return [("stale-grad-returns", f"the gradient of t{n}, discarded by `{why}`, is readable again before "
+                         f"`{progs.to_line(st)[:60]}` although no backward pass ran in between")]
         refs = [x[1] for x in st[1:] if isinstance(x, list) and len(x) == 2 and x[0] == "t"]
         if k in ("set", "aug", "outb", "outu"):
             refs.append(st[1])
@@ -174,6 +182,11 @@ def oracle_stale(prog, idx):
             src = ex.v.get(st[3][1]) if st[3][0] == "t" else None
             if src is None or res.size == 0 or np.shares_memory(res.data, src.data):
                 continue  # a genuine view (or nothing to tell): the gradient persists
+        for n in leaves:
+            voided[n] = progs.to_line(st)[:60]
+            for m, v in ex.v.items():
+                if v.base is ex.v[n]:
+                    voided[m] = progs.to_line(st)[:60]
         for n in leaves:
             t = ex.v[n]
             if t.grad is not None:
